@@ -3,7 +3,7 @@ writes /verif/evidence/<id>.json and decides the exit code."""
 import os, sys, json, time, collections, hashlib
 from . import build, native as nat
 
-TIER_BUDGET = {'quick': 150.0, 'thorough': 1500.0}     # seconds of exploration per check (soft deadline)
+TIER_BUDGET = {'quick': 150.0, 'thorough': 2400.0}     # seconds of exploration per check (soft deadline)
 
 class Run:
     def __init__(s, pid, tier, seed):
